@@ -662,3 +662,67 @@ def check_normalize_body(ctx, res, config="all"):
         else:
             res.fail(Finding("R1-normalize-body", suffix, "%s does not call %s" % (suffix, need), bs[0]))
     res.clause("R1: BigUint::normalize truncates to (index of the last non-zero digit) + 1; normalized() and biguint_from_vec go through it")
+
+
+def check_no_constant_cut(ctx, res, config="all"):
+    """`v.data.resize(K, 0)` / `truncate(K)` with a constant K on the digit vector of an operand (a parameter's BigUint/BigInt)
+    drops the digits above K of a longer operand; it is acceptable only behind a test of that vector's length."""
+    facts = ctx.facts(config)
+    n = 0
+    nsites = 0
+    for b in facts.bodies:
+        live = None
+        for i, t in b.calls():
+            nm = callee_name(t)
+            if nm not in ("resize", "truncate") or len(t["args"]) < 2:
+                continue
+            ce = callee(t) or ""
+            if "Vec" not in ce:
+                continue
+            if live is None:
+                live = b.live_blocks()
+            if i not in live:
+                continue
+            pl = core.op_place(t["args"][0])
+            if pl is None:
+                continue
+            base = _base_of_local(b, pl["local"])
+            if base is None or base[0] != "param" or not base[2] or base[2][-1] != "data":
+                continue
+            pty = b.local_ty(base[1])
+            if "BigUint" not in pty and "BigInt" not in pty:
+                continue
+            nsites += 1
+            k = op_const(t["args"][1])
+            if k is None:
+                kl = op_local(t["args"][1])
+                if kl is not None:
+                    ds = b.defs().get(kl, [])
+                    if len(ds) == 1 and ds[0][0] == "assign" and ds[0][3]["rv"]["k"] == "use":
+                        k = op_const(ds[0][3]["rv"]["op"])
+            if k is None or k == 0:
+                continue  # a computed length, or clearing the vector: not this rule
+            n += 1
+            # a dominating branch whose condition is computed from len() of the same vector
+            guarded = False
+            from .tests import Atoms
+
+            at = Atoms(b)
+            for j, tt in b.terms():
+                if tt["k"] != "switch" or j not in live or j == i:
+                    continue
+                atoms = at.of_operand(tt["discr"])
+                if not any(a[0] == "call" and a[1] == "len" for a in atoms):
+                    continue
+                if any(a[0] == "param" and a[1] == base[1] for a in atoms) and b.block_dominates(j, i):
+                    guarded = True
+                    break
+            key = "%s|%s(%s)" % (b.path, nm, k)
+            if guarded:
+                res.ok("R1-constant-cut", key, {"guarded_by": "length test"})
+            else:
+                res.fail(Finding("R1-constant-cut", key, "the operand's digit vector is cut to the constant length %s by %s() (line %s) without a preceding test of its length: the high digits of a longer operand are discarded" % (k, nm, t["span"]["line"]), b, t["span"]["line"]))
+    res.distinct.add("R1-constant-cut:all")
+    res.count("resize/truncate sites on operand digit vectors", nsites)
+    res.count("... with a constant length", n)
+    res.clause("R1: no operand's digit vector is resized/truncated to a constant length without a dominating test of its length")
